@@ -26,6 +26,10 @@ RULE = ("every conjunction of length 1..N over 15 operations {d(X), d(1), d(2), 
         "x 5 initial databases {[],[1],[1,2],[1,2,3],[2,1,2]} x 3 clause shapes (facts d(k) with an indexed constant "
         "argument; facts d(c,k) called with the first argument unbound; rules d(V) :- V = k), each on a fresh "
         "predicate; all solutions are drawn so every iterator is re-entered after the later updates. "
+        "Shape M (mixed index blocks): facts d(Key,V) with Key in {a, b, variable} so that an unindexed clause sits "
+        "between indexed ones; initial databases = arrangements of 2-3 (thorough: 2-4) clauses with a variable clause "
+        "between constants (or a constant between variables); operations {d(a,X), d(b,X), d(c,X), d(_,X), assertz with key "
+        "a/b/c/variable, asserta with key a/variable, retract(d(_,X)), !}, histories of length <= 3. "
         "transitions = distinct histories executed (each extends a shorter one by one operation), "
         "states = distinct final clause listings observed per shard. "
         "Non-trivial: an update is executed while an iterator over the same predicate opened earlier in the "
@@ -52,20 +56,34 @@ DBS = [[], [1], [1, 2], [1, 2, 3], [2, 1, 2]]
 # clause (initial clauses 1..n, the clause asserted by the operation at position i has V = 5+i).
 # Calls have the first argument bound to a, b, c (c: no such key) or unbound.
 MKEYS = ["a", "b", None]
-M_ITEMS = ([("mcall", k) for k in ("a", "b", "c", None)] + [("maz", k) for k in ("a", "b", "c", None)]
-           + [("maa", k) for k in ("a", "c", None)] + [("mret", k) for k in ("a", None)] + [("cut",)])
+M_ITEMS_T = ([("mcall", k) for k in ("a", "b", "c", None)] + [("maz", k) for k in ("a", "b", "c", None)]
+             + [("maa", k) for k in ("a", "c", None)] + [("mret", k) for k in ("a", None)] + [("cut",)])
+# quick: the same calls and assertz; asserta of a present key and of a variable key; retract(d(_,V))
+M_ITEMS_Q = ([("mcall", k) for k in ("a", "b", "c", None)] + [("maz", k) for k in ("a", "b", "c", None)]
+             + [("maa", k) for k in ("a", None)] + [("mret", None)] + [("cut",)])
+
+
+def m_items(tier):
+    return M_ITEMS_Q
 
 
 def mixed_dbs(tier):
+    """initial databases (lists of first arguments).  thorough: every arrangement of 2-3 clauses with at least one
+    variable and one constant first argument, and every arrangement of 4 with a variable clause strictly between
+    constants.  quick: the arrangements of 2, and of 3 with the variable clause between constants or the
+    constant clause between variables."""
     out = []
     for n in (2, 3, 4):
         for t in itertools.product(MKEYS, repeat=n):
-            if n < 4:
-                ok = any(k is None for k in t) and any(k is not None for k in t)
+            mixed = any(k is None for k in t) and any(k is not None for k in t)
+            between = any(t[j] is None and any(x is not None for x in t[:j]) and any(x is not None for x in t[j + 1:])
+                          for j in range(1, n - 1))
+            if n == 2:
+                ok = mixed
+            elif n == 3:
+                ok = mixed if tier == "thorough" else (between or (t[0] is None and t[2] is None and t[1] is not None))
             else:
-                # length 4 (thorough only): a variable-first-argument clause strictly between constants
-                ok = tier == "thorough" and any(t[j] is None and any(x is not None for x in t[:j])
-                                                and any(x is not None for x in t[j + 1:]) for j in range(1, 3))
+                ok = tier == "thorough" and between
             if ok:
                 out.append(list(t))
     return out
@@ -86,10 +104,12 @@ def bound_text(tier):
     if tier == "thorough":
         return ("all histories of length <= 3 over 14 operations x 5 initial databases x 3 clause shapes, and of length 4 "
                 "for shape A over the initial databases [1,2,3] and [2,1,2] (a history is not extended once it ended "
-                "in a panic or hang); clause/2-iterator family of length 2")
+                "in a panic or hang); clause/2-iterator family of length 2; mixed-index shape M: %d initial "
+                "databases x all histories of length <= 3 over 12 operations" % len(mixed_dbs(tier)))
     return ("all histories of length <= 3 over 14 operations x 5 initial databases x 3 clause shapes "
             "(shapes B and C over the initial databases [1,2,3] and [2,1,2] only) (a history is not extended once it "
-            "ended in a panic or hang); clause/2-iterator family of length 2")
+            "ended in a panic or hang); clause/2-iterator family of length 2; mixed-index shape M: %d initial "
+            "databases x all histories of length <= 3 over 12 operations" % len(mixed_dbs(tier)))
 
 
 def shards(tier):
@@ -370,7 +390,9 @@ def observe(x, items):
         sols.append(tuple((s.get("X%d" % i) if it[0] in ("call", "clause", "ret", "mcall", "mret") else None)
                           for i, it in enumerate(items)))
     lst = rs[2]
-    listing = [s.get("X99") for s in lst.sols] if lst.status == "done" else "status:%s" % lst.status
+    # the driver caps every goal of a multi command at 64 solutions: listing and final call are compared
+    # on their first 64 entries
+    listing = [s.get("X99") for s in lst.sols] if lst.status in ("done", "cap") else "status:%s" % lst.status
     c = rs[3]
     if c.status == "exc":
         f = c.formal()
@@ -396,6 +418,8 @@ def expected_variants(shape, db0, items):
         if first is None:
             first = m
         final = m["final"]
+        if final is not None:
+            final = final[:CAP]
         e = (m["status"], m["sols"], final if final is not None else [], final if final is not None else "unknown")
         if e not in out:
             out.append(e)
@@ -447,6 +471,11 @@ def judge(shape, db0, items, x):
         return "clause_iter:differs(not compared)", nt, None, obs, None
     e = exps[0]
     ctx = "live={%s} emptied=%s" % (",".join(sorted(m["inter"])) or "-", m["emptied"] or "-")
+    if shape == "M":
+        # an asserta before a later assertz is the trigger of a known clause-threading defect (F-C06-3)
+        kinds = [it[0] for it in items]
+        aa_az = any(k == "maa" and "maz" in kinds[j + 1:] for j, k in enumerate(kinds))
+        ctx += " seq=%s" % ("aa>az" if aa_az else "-")
     if obs[0].startswith("abn:"):
         # panic, hang and crash are one class: which of them a derailed dispatch loop ends in
         # depends on the heap contents, so the kind is not part of the signature
@@ -541,7 +570,7 @@ def run_shard(w, shard, tier):
     acc = px.ShardAcc()
     shape, dbi, first = shard
     db0 = mixed_dbs(tier)[dbi] if shape == "M" else DBS[dbi]
-    alphabet = M_ITEMS if shape == "M" else ITEMS
+    alphabet = m_items(tier) if shape == "M" else ITEMS
     w.new_machine()
     states = set()
     if first == "cl":
@@ -550,7 +579,7 @@ def run_shard(w, shard, tier):
             record(acc, states, shape, db0, items, x)
     else:
         top = nmax(tier, shape, dbi)
-        level = [[it] for it in M_ITEMS] if shape == "M" else [[ITEMS[first]]]
+        level = [[it] for it in alphabet] if shape == "M" else [[ITEMS[first]]]
         for ln in range(1, top + 1):
             nxt = []
             for part in px.chunked(level, 3000):
